@@ -425,7 +425,7 @@ def job(n, seed):
 
 
 def jobs(tier, seed):
-    k = 1 if tier == "quick" else 30
+    k = 1 if tier == "quick" else 20
     return [{"fn": "vf.props.c01:job", "args": {"n": 500 * k, "seed": seed * 1000 + s}} for s in range(16)]
 
 
